@@ -50,6 +50,13 @@ class FuncVal:
     def __call__(self, *args, **kwargs):
         return self.ev.call(self, list(args), kwargs)
 
+    # one function object per definition and environment: looked up twice it is the same function (dict keys, ==, tuples of callables)
+    def __eq__(self, other):
+        return isinstance(other, FuncVal) and other.finfo is self.finfo and other.closure is self.closure and other.bound is self.bound
+
+    def __hash__(self):
+        return hash((id(self.finfo), id(self.closure), id(self.bound)))
+
     def __repr__(self):
         return f"<FuncVal {self.finfo.fq}>"
 
@@ -58,6 +65,13 @@ class ClassVal:
     def __init__(self, ev, cinfo):
         self.ev = ev
         self.cinfo = cinfo
+
+    # a class is one object however often it is looked up (type(x), module attribute, import): equal and hashable by what it denotes
+    def __eq__(self, other):
+        return isinstance(other, ClassVal) and other.cinfo is self.cinfo
+
+    def __hash__(self):
+        return hash(id(self.cinfo))
 
     def __call__(self, *args, **kwargs):
         return self.ev.instantiate(self, list(args), kwargs)
@@ -110,8 +124,53 @@ class ObjVal:
     def __bool__(self):
         return True
 
+    # value objects: a class that defines __eq__ / __hash__ is compared and hashed by them wherever Python would (dict keys, `in`, sets)
+    def __eq__(self, other):
+        if self is other:
+            return True
+        ci = self.cinfo
+        ev = _ACTIVE[0] if "_ACTIVE" in globals() else None
+        if ci is not None and ev is not None and isinstance(other, ObjVal):
+            em = ci.find_method("__eq__")
+            if em is not None:
+                r = ev.call(FuncVal(ev, em, bound=self), [other], {})
+                if r is NotImplemented or isinstance(r, _NotImplementedVal):
+                    return False
+                return bool(ev.truth(r))
+        return False
+
+    def __ne__(self, other):
+        return not self.__eq__(other)
+
+    def __hash__(self):
+        ci = self.cinfo
+        ev = _ACTIVE[0] if "_ACTIVE" in globals() else None
+        if ci is not None and ev is not None:
+            hm = ci.find_method("__hash__")
+            if hm is not None:
+                return hash(_hashable(ev.call(FuncVal(ev, hm, bound=self), [], {})))
+        return id(self) >> 4
+
     def __repr__(self):
         return f"<Obj {self.label or (self.cinfo.name if self.cinfo else '?')}>"
+
+
+class _NotImplementedVal:
+    """The singleton NotImplemented of the analysed code."""
+
+
+def _hashable(v):
+    """A Python-hashable stand-in with the equality of the folded value (numbers by normal form)."""
+    v = num_norm(v) if not isinstance(v, (bool, str, bytes)) else v
+    if isinstance(v, Rat):
+        return ("rat", v.canon())
+    if isinstance(v, (list, tuple)):
+        return tuple(_hashable(x) for x in v)
+    if isinstance(v, Arr):
+        return ("arr", tuple(_hashable(x) for x in v.flat()))
+    if isinstance(v, dict):
+        return tuple(sorted((repr(k), _hashable(x)) for k, x in v.items()))
+    return v
 
 
 class SuperVal:
@@ -764,6 +823,8 @@ class Evaluator:
                 return getattr(obj, attr)
             if attr == "ndim":
                 return len(obj.shape)
+            if attr == "tobytes":
+                return _NativeFn(lambda *a, **k: ("bytes-of",) + tuple(_hashable(x) for x in obj.flat()) + (obj.shape,))
             if attr == "astype":
                 return _NativeFn(lambda dtype, **k: _np_array(self, obj, dtype=dtype))
             if attr in ("reshape", "tolist", "flat"):
@@ -1061,6 +1122,13 @@ class Evaluator:
         return [self.enum_member(cinfo, n) for n in names]
 
     def instantiate(self, cv, args, kwargs):
+        obj = self._instantiate(cv, args, kwargs)
+        lst = getattr(self, "instance_listener", None)
+        if lst is not None and isinstance(obj, ObjVal):
+            lst(self, cv.cinfo, obj)
+        return obj
+
+    def _instantiate(self, cv, args, kwargs):
         kind = self._class_kind(cv.cinfo)
         if kind == "enum":
             if len(args) != 1:
@@ -1717,7 +1785,7 @@ class Evaluator:
             return True
         if isinstance(pat, ast.MatchClass):
             cls = self.eval(pat.cls, env)
-            if not _b_isinstance(v, cls):
+            if not _BUILTINS["isinstance"](v, cls):
                 return False
             if pat.patterns:
                 raise Undecided("positional class pattern")
@@ -2067,10 +2135,11 @@ class Evaluator:
         if isinstance(op, (ast.Is, ast.IsNot)) and (isinstance(a, NpBool) or isinstance(b, NpBool)):
             return (a is b) if isinstance(op, ast.Is) else (a is not b)  # np.True_ is not the singleton True
         a, b = num_norm(a), num_norm(b)
-        if isinstance(op, ast.Is):
-            return a is b or (a is None and b is None)
-        if isinstance(op, ast.IsNot):
-            return not (a is b)
+        if isinstance(op, (ast.Is, ast.IsNot)):
+            same = a is b or (a is None and b is None) or (isinstance(a, ClassVal) and isinstance(b, ClassVal) and a.cinfo is b.cinfo) \
+                or (isinstance(a, _TypeProxy) and isinstance(b, _TypeProxy) and a.pytype is b.pytype) \
+                or (isinstance(a, ExtVal) and isinstance(b, ExtVal) and a.dotted == b.dotted)
+            return same if isinstance(op, ast.Is) else not same
         if isinstance(op, (ast.In, ast.NotIn)):
             if isinstance(b, ObjVal):
                 m = b.cinfo.find_method("__contains__") if b.cinfo is not None else None
@@ -2948,7 +3017,8 @@ _BUILTINS = {
     "round": lambda v, nd=None: A.opaque("round", (num_norm(v), nd)) if isinstance(num_norm(v), Rat) else (round(float(num_norm(v)), nd) if nd is not None else round(float(num_norm(v)))),
     "ord": ord,
     "chr": chr,
-    "hash": lambda v: hash(v) if not isinstance(v, (ObjVal, Rat)) else _raise_undecided("hash of a folded object"),
+    "hash": lambda v: hash(v) if isinstance(v, ObjVal) else hash(_hashable(v)),
+    "NotImplemented": _NotImplementedVal(),
     "id": lambda v: id(v),
     "issubclass": lambda c, k: _b_issubclass(c, k),
     "vars": lambda o: dict(o.attrs) if isinstance(o, ObjVal) else _raise_undecided("vars()"),
